@@ -221,8 +221,11 @@ class Tracer:
                 return _TempProxy(f, tr)
             return real_ntf(*a, **kw)
         tempfile.NamedTemporaryFile = ntf
-        self.orig[('mio', 'NamedTemporaryFile')] = mio.NamedTemporaryFile
-        mio.NamedTemporaryFile = ntf
+        # (the module imports the name; a tree that writes its control files another way
+        # has no such attribute - then there is nothing to wrap here)
+        if hasattr(mio, 'NamedTemporaryFile'):
+            self.orig[('mio', 'NamedTemporaryFile')] = mio.NamedTemporaryFile
+            mio.NamedTemporaryFile = ntf
         # stdlib mailbox and pymap call os.<name> / open through the module attribute,
         # which the assignments above already cover; keep explicit for the record:
         assert mailbox.os is os
